@@ -665,6 +665,8 @@ def h_train(P, ops, a, lr_p=0.5):
     op = {"op": "train", "dep": a.id, "input": desc, "gseed": P.S.sub("g", P.nops) % (1 << 30), "gmag": r.choice([1.0, 1.0, 0.1, 10.0])}
     if r.random() < 0.35:
         op["noncontig"] = True
+    elif r.random() < 0.4:
+        op["loss"] = r.choice(["sum", "sum", "mean", "twice", "zero", "last"])
     if r.random() < 0.3:
         op["peek"] = True
     if r.random() < 0.2:
